@@ -2,6 +2,7 @@ import Utv.Lemmas.C20
 import Utv.Lemmas.C20Reg
 import Utv.Lemmas.C20Reg2
 import Utv.Lemmas.C20Term
+import Utv.Lemmas.C20Lazy
 /-!
 C20 — concurrent use is safe, including the first use of a type.
 
@@ -384,6 +385,43 @@ example :
     let s := Reg2.run Wr true (Reg2.init [eB] [] raceProg) ([0,0,0,0] ++ List.replicate 7 1 ++ List.replicate 12 0)
     (s.th 0).outs = [.fn (some 20), .fn (some 30)] ∧ (s.th 0).pc = .fin ∧ (s.th 1).pc = .fin
       ∧ s.g.cache = [(2, 30)] := by
+  decide +kernel
+
+
+/-! ## Lazily initialised parser attributes (`positional_fields` & co.: `functools.cached_property`)
+
+Model `Utv/Model/C20Lazy.lean`.  The invariant the property needs: *a published lazy value is complete* — the object
+another thread can see is stored once, after its construction. -/
+
+/-- **C20, lazy attributes.**  Build-then-publish (what `functools.cached_property` does): for every index size, every
+set of entries that have a field, any number of threads and every schedule of getter-body lines and other steps —
+whatever a thread sees when it reads the attribute is either nothing yet or the complete index, what the getter
+returns to a thread that built it is the complete index, and the stored value is never a partial one. -/
+theorem C20_lazy_publish_complete (W : Lazy.World) (sched : List (Nat × Bool)) (k : Nat) :
+    let s := Lazy.run W false Lazy.init sched
+    (∀ v ∈ (s.th k).views, v = none ∨ v = some (Lazy.full W)) ∧ (∀ r ∈ (s.th k).rets, r = Lazy.full W)
+      ∧ (s.slot = none ∨ s.slot = some (Lazy.full W)) :=
+  let I := Lazy.inv_run (W := W) sched (Lazy.inv_init W)
+  ⟨(I.th k).views, (I.th k).rets, I.slot⟩
+
+/-- three positional parameters, each with a field -/
+def W3 : Lazy.World := { n := 3, hasField := fun _ => true }
+
+/-- non-vacuity: two threads both miss, both build, both publish the complete index; a third step sees it -/
+example :
+    let s := Lazy.run W3 false Lazy.init
+      ([(0, false), (1, false)] ++ List.replicate 8 (0, true) ++ List.replicate 16 (1, true) ++ List.replicate 8 (0, true)
+        ++ [(0, false)])
+    s.slot = some [0, 1, 2] ∧ (s.th 0).rets = [[0, 1, 2]] ∧ (s.th 1).rets = [[0, 1, 2]]
+      ∧ (s.th 0).views = [none, some [0, 1, 2]] := by
+  decide +kernel
+
+/-- The anti-pattern (seeded change C20-r2-C: a hand-written lazy attribute that publishes the empty dict and then fills
+it in place): while thread 0 has filled one of three entries, thread 1 reads the attribute and sees a partial index —
+`total('10', 20, 30)` then binds only its first argument. -/
+theorem C20_lazy_early_publish_witness :
+    let s := Lazy.run W3 true Lazy.init (List.replicate 6 (0, true) ++ [(1, false)])
+    (s.th 1).views = [some [0]] ∧ Lazy.full W3 = [0, 1, 2] := by
   decide +kernel
 
 end Utv.C20
